@@ -1,3 +1,5 @@
+#[cfg(repe_verif_loom)]
+use crate::verif_loom::std_shadow as std;
 use crate::constants::{BodyFormat, ErrorCode, QueryFormat, REPE_VERSION};
 use crate::error::RepeError;
 use crate::io::{read_message, write_message};
